@@ -1340,7 +1340,7 @@ pub fn run_c11(tier: &str, seed: u64) -> Report {
   report
 }
 
-/// minimised inputs of repaired findings (and of the open one about fast check, F34), checked first on every run
+/// minimised inputs of repaired findings, checked first on every run
 pub fn regression_worlds() -> Vec<(&'static str, FcWorld)> {
   let pkg = |files: &[(&str, &str)]| FcWorld {
     main: "import * as a from \"jsr:@s/a@1\";\n".into(),
@@ -1360,7 +1360,7 @@ pub fn regression_worlds() -> Vec<(&'static str, FcWorld)> {
       ("/c.ts", "import * as ns from \"./a.ts\";\nexport type N = typeof ns;\n"),
     ]),
   ), (
-    "F34 (open): a name imported through `export *` declarations that form a cycle",
+    "F34: a name imported through `export *` declarations that form a cycle",
     pkg(&[
       ("/mod.ts", "import { X } from \"./a.ts\";\nexport interface U { x: X }\n"),
       ("/a.ts", "export * from \"./b.ts\";\n"),
@@ -1585,7 +1585,7 @@ pub fn run_c09(tier: &str, seed: u64) -> Report {
           return;
         }
         if !exported_by(&exports_of, &resolve, &t, name, &mut BTreeSet::new()) {
-          // known defect trigger (F34): the `export *` declarations of the package's sources form a cycle
+          // (the shape of the repaired finding F34: the `export *` declarations of the sources form a cycle)
           let shape = if star_cycle_in_sources(w) { "name-imported-through-export-star-cycle-not-exported" } else { "imported-name-not-exported-by-emitted-counterpart" };
           report.fail("oracle", shape, format!("{}: {} `{}` from {} which emits exports {:?}", u, what, name, t, exports_of.get(&t)), replay.clone());
         }
